@@ -346,7 +346,7 @@ class HarnessWorker:
                         break
             tr.pump()
             if out is None or out == "":
-                out = "DIED (no reply from the harness)"
+                out = "DIED (no reply from the harness after %.1fs; harness exit status %r)" % (time.time() - deadline + 60, self.p.poll())
             return tr, out
         finally:
             tr.close()
@@ -365,6 +365,7 @@ def run_hook_cases(ctx, cases):
     res = [None] * len(cases)
     lock = threading.Lock()
     pos = [0]
+    retried = []
 
     def worker():
         w = HarnessWorker(ctx.bins["harness"])
@@ -377,6 +378,14 @@ def run_hook_cases(ctx, cases):
                     pos[0] += 1
                 try:
                     res[i] = w.run(cases[i])
+                    if res[i][1].startswith("DIED"):
+                        # the harness process went away or stayed silent: once more with a fresh process; a client
+                        # that really aborts on this input does so again and is then reported
+                        lib.log("C12: %s on case %s - retrying with a fresh harness" % (res[i][1], cases[i]["name"]))
+                        retried.append(cases[i]["name"])
+                        w.stop()
+                        w = HarnessWorker(ctx.bins["harness"])
+                        res[i] = w.run(cases[i])
                 except Exception as e:   # infrastructure (socket) trouble: retry once with a fresh process
                     w.stop()
                     w = HarnessWorker(ctx.bins["harness"])
@@ -392,6 +401,8 @@ def run_hook_cases(ctx, cases):
         t.start()
     for t in ths:
         t.join()
+    if retried:
+        ctx.count("harness_silent_retries", len(retried))
     return res
 
 
@@ -934,7 +945,7 @@ def run(ctx):
                 suspects.append(i)
         except Exception:
             suspects.append(i)
-    if 0 < len(suspects) <= 12:
+    if 0 < len(suspects) <= max(12, len(cases) // 2000):
         for i in suspects:
             results[i] = run_hook_cases(ctx, [cases[i]])[0]
         ctx.count("confirmation_reruns", len(suspects))
